@@ -103,8 +103,10 @@ pub fn check(_ctx: &Ctx, input: &Input) -> CaseResult {
             return Ok(out);
         }
     };
-    let cfg = wal::Cfg::plain().to_config();
-    for do_gc in [false, true] {
+    // survival must not depend on configuration either: the second pair of
+    // passes preserves the code transform (raw sections ignore it)
+    for (do_gc, code_transform) in [(false, false), (true, false), (false, true), (true, true)] {
+        let cfg = wal::Cfg { code_transform, ..wal::Cfg::plain() }.to_config();
         let mut m = match wal::parse(&p.bytes, &cfg) {
             Ok(Ok(m)) => m,
             _ => {
